@@ -67,9 +67,10 @@ def plan(tier, seed):
         fams.append(('grow3-full', ELEMS_FULL, 3, 'lite2', 4))
         fams.append(('grow4-CNO', ELEMS_3, 4, 'lite2', 4))
     else:
-        fams.append(('grow3-full', ELEMS_FULL, 3, 'full', 4))
-        fams.append(('grow4-CNOCl', ELEMS_4, 4, 'lite', 4))
-        fams.append(('grow5-CNO', ELEMS_3, 5, 'lite2', 5))
+        fams.append(('grow2-full', ELEMS_FULL, 2, 'full', 4))
+        fams.append(('grow3-full', ELEMS_FULL, 3, 'lite', 4))
+        fams.append(('grow4-CNOCl', ELEMS_4, 4, 'lite2', 4))
+        fams.append(('grow5-CO', (('C', 0), ('O', 0)), 5, 'lite2', 4))
     for name, elems, n, level, maxfrag in fams:
         mols, ex = enumerate_molecules(elems, n)
         chunk = 12 if level == 'lite2' else 3
@@ -84,8 +85,8 @@ def plan(tier, seed):
             parts = M.partitions(mol, max_frag=2 if big else 3)
             level = 'lite2' if len(mol['atoms']) >= 6 else 'lite'
         else:
-            parts = M.partitions(mol, max_frag=3 if big else 5)
-            level = 'lite' if len(mol['atoms']) >= 6 else 'full'
+            parts = M.partitions(mol, max_frag=3 if big else 4)
+            level = 'lite2' if len(mol['atoms']) >= 8 else 'lite' if len(mol['atoms']) >= 5 else 'full'
         step = 6 if q else 4
         for i in range(0, len(parts), step):
             tasks.append({'space': 'feature', 'mols': [mol], 'name': nm, 'level': level,
@@ -114,7 +115,7 @@ def plan(tier, seed):
         mol = M.SLICE[nm]
         parts = M.partitions(mol, max_frag=3 if q else 4)
         for i in range(0, len(parts), 8):
-            tasks.append({'space': 'seed-slice', 'mols': [mol], 'name': nm, 'level': 'lite2' if q else 'lite',
+            tasks.append({'space': 'seed-slice', 'mols': [mol], 'name': nm, 'level': 'lite2',
                           'parts': parts[i:i + 8], 'pre': (0, 0)})
     return tasks
 
